@@ -40,7 +40,7 @@ def norm_FuMa(n, abs_m):
                (3, 1): np.sqrt(45/32),
                (3, 2): 3/np.sqrt(5),
                (3, 3): np.sqrt(8/5)}
-    conv_factor = np.apply_along_axis(lambda a: convert[tuple(a)],
+    conv_factor = np.apply_along_axis(lambda a: float(convert[tuple(a)]),
                                       0, [n, abs_m])
 
     return norm_SN3D(n, abs_m) * conv_factor
